@@ -53,6 +53,11 @@ for cls, qn in (('Socket', 'socket.Socket.poll'), ('AsyncSocket', 'async_socket.
     c.ensures('accepted-grows', 'self.queue.accepted[0:len(old(self.queue.accepted))] == '
               'old(self.queue.accepted)')
     c.ensures('queue-wf', 'self.queue.unf >= len(self.queue.items)')
+    # C03: the response returns everything queued at that moment - unless the closure sentinel was
+    # met (and put back), the queue is empty when poll returns
+    c.ensures('drains-everything-queued', 'implies(len(result) > 0 and '
+              'self.queue.put_none == old(self.queue.put_none), len(self.queue.items) == 0)',
+              props=['C03'])
     # the None sentinel (closure marker): consumed only when it is the first item; a sentinel met
     # while draining is put back
     c.ensures('sentinel-consumed-only-first', 'implies(len(result) == 0, '
@@ -70,6 +75,7 @@ for cls, qn in (('Socket', 'socket.Socket.poll'), ('AsyncSocket', 'async_socket.
          'packets[0] == old(self.queue.items)[0])'),
         ('sentinel-balance', 'self.queue.taken_none - old(self.queue.taken_none) == '
          'self.queue.put_none - old(self.queue.put_none)'),
+        ('no-sentinel-put-back-yet', 'self.queue.put_none == old(self.queue.put_none)'),
         ('queue-wf', 'self.queue.unf >= len(self.queue.items)'),
         ('taken', 'self.queue.taken == old(self.queue.taken) + packets'),
         ('accepted-grows', 'self.queue.accepted[0:len(old(self.queue.accepted))] == '
@@ -312,7 +318,7 @@ for cls, mod in (('Socket', 'socket'), ('AsyncSocket', 'async_socket')):
         c.modifies('ghost.received')
 
 # ------------------------------------------------------------------------- handle_post_request
-POST_MOD = SOCK_MOD + ['ghost.reads', 'ghost.received']
+POST_MOD = SOCK_MOD + ['ghost.reads', 'ghost.bodies', 'ghost.received']
 ENV_POST = ("'wsgi.input' in environ and ('CONTENT_LENGTH' not in environ or "
             "(int_ok(environ['CONTENT_LENGTH']) and int(environ['CONTENT_LENGTH']) >= 0))")
 NOTHING_DISPATCHED = ('received == old(received) and events == old(events) and hresults == old(hresults) and '
@@ -345,6 +351,10 @@ for cls, mod in (('Socket', 'socket'), ('AsyncSocket', 'async_socket')):
               "reads == old(reads) + [int(environ.get('CONTENT_LENGTH', '0'))] and "
               "int(environ.get('CONTENT_LENGTH', '0')) <= self.server.max_http_buffer_size",
               props=['C14'])
+    # C04: a body that is not valid UTF-8 is refused as a whole (no packet of it is dispatched)
+    c.ensures('undecodable-body-dispatches-nothing', 'implies(len(bodies) > len(old(bodies)) and '
+              'not utf8_ok(bodies[len(old(bodies))]), received == old(received) and '
+              'events == old(events) and spawned == old(spawned))', props=['C04'])
     c.ensures('at-most-16-packets', 'len(received) <= len(old(received)) + 16',
               props=['C14', 'C02', 'C10'])
     c.ensures('events-only-grow', 'grows(events, old(events))')
